@@ -477,8 +477,56 @@ def rule_accessors(ctx):
             ctx.ok(site(fn, sb), "%s handles both representations" % m)
 
 
+def rule_manifest(ctx):
+    """`chars::graphemes` segments only when the matcher crate is built with its `unicode-segmentation` feature (the
+    fallback is `text.chars()`), and `has_ascii_graphemes` is not feature-gated: the grapheme guarantees of the
+    constructors hold for users of `nucleo` only if the top-level crate builds its matcher dependency with that
+    feature.  Read off the two manifests: the matcher's default features contain `unicode-segmentation`, which pulls in
+    the segmentation crate; the top-level crate either keeps the matcher's default features or forwards a feature of its
+    own that enables `nucleo-matcher/unicode-segmentation` by default."""
+    import os, tomllib
+    from engine import REPO
+    repo = os.environ.get("NUCLEO_REPO", REPO)
+    try:
+        top = tomllib.load(open(os.path.join(repo, "Cargo.toml"), "rb"))
+        mat = tomllib.load(open(os.path.join(repo, "matcher", "Cargo.toml"), "rb"))
+    except Exception as e:
+        raise Inconclusive("manifests not readable: %s" % e)
+    mf = mat.get("features", {})
+    seg = mf.get("unicode-segmentation")
+    if seg is None:
+        raise Inconclusive("the matcher crate has no `unicode-segmentation` feature: segmentation is decided elsewhere")
+    if "unicode-segmentation" in mf.get("default", []) and any("unicode-segmentation" in x for x in seg):
+        ctx.ok("matcher/Cargo.toml", "default features include unicode-segmentation (-> dep:unicode-segmentation)")
+    else:
+        ctx.violation("matcher/Cargo.toml|features|segmentation", "matcher/Cargo.toml", "the matcher's default features no longer enable grapheme segmentation (default = %s, unicode-segmentation = %s): "
+                      "chars::graphemes falls back to one character per code point" % (mf.get("default"), seg))
+    dep = top.get("dependencies", {}).get("nucleo-matcher")
+    if dep is None:
+        raise Inconclusive("the top-level crate does not depend on nucleo-matcher by that name")
+    keeps_default = not (isinstance(dep, dict) and dep.get("default-features") is False)
+    explicit = isinstance(dep, dict) and "unicode-segmentation" in dep.get("features", [])
+    tf = top.get("features", {})
+
+    def enables(feat, seen=()):
+        if feat in seen:
+            return False
+        for x in tf.get(feat, []):
+            if x in ("nucleo-matcher/unicode-segmentation", "nucleo-matcher?/unicode-segmentation"):
+                return True
+            if x in tf and enables(x, seen + (feat,)):
+                return True
+        return False
+    if keeps_default or explicit or enables("default"):
+        ctx.ok("Cargo.toml", "nucleo builds nucleo-matcher with grapheme segmentation (%s)" % ("matcher default features kept" if keeps_default else ("feature listed on the dependency" if explicit else "forwarded by nucleo's default features")))
+    else:
+        ctx.violation("Cargo.toml|nucleo-matcher|segmentation", "Cargo.toml", "nucleo depends on nucleo-matcher with default-features = false and nothing in its own default features enables "
+                      "`nucleo-matcher/unicode-segmentation`: built on its own (not unified with the workspace) the matcher takes one character per code point, CR LF stays two characters")
+
+
 def rules(ctx):
     ctx.run_rule("C17.constructors", rule_constructors)
     ctx.run_rule("C17.ascii-predicate", rule_ascii_predicate)
     ctx.run_rule("C17.grapheme-map", rule_grapheme_map)
     ctx.run_rule("C17.accessors", rule_accessors)
+    ctx.run_rule("C17.manifest", rule_manifest)
